@@ -50,22 +50,30 @@ def filler_bytes(kind, seed, n):
             out.append((0x00, 0x00, 0xC0 if (s + i // 4) % 2 else 0x80, 0x7F if (s + i // 4) % 3 else 0xFF)[i % 4])
         elif kind == "negative-int":
             out.append(0xFF if i % 4 else 0xFE - (s % 3))
+        elif kind == "wide":       # looks like the rest of a UTF-16 buffer: letter, NUL, letter, NUL, ...
+            out.append(0 if i % 2 else 97 + (h >> 20) % 26)
         else:
             out.append(0)
     return bytes(out)
 
 
 def scramble(data, spans, kind, seed, base=0):
-    """overwrite every don't-care position; returns (bytes, {class: changed count})"""
+    """overwrite don't-care positions; returns (bytes, {class: changed count}).
+    kind 'x' overwrites all of them; kind 'partial:x' decides per 4-byte word (seeded) whether it is overwritten or
+    left as it is, so that e.g. exactly one of two neighbouring pad words is non-zero."""
+    partial = kind.startswith("partial:")
+    base_kind = kind.split(":", 1)[1] if partial else kind
     b = bytearray(data)
     changed = {}
     k = 0
     for s, e, c in spans:
         if c not in reftdf.DONTCARE:
             continue
-        fill = filler_bytes(kind, seed + k, e - s)
+        fill = filler_bytes(base_kind, seed + k, e - s)
         k += 1
         for i in range(s, e):
+            if partial and (specs.mix(seed, (i - s) // 4 * 7919 + k) >> 17) & 1:
+                continue
             if b[i - base] != fill[i - s]:
                 changed[c] = changed.get(c, 0) + 1
             b[i - base] = fill[i - s]
@@ -113,7 +121,8 @@ def run_blocks(ctx, case):
 
 
 def blocks_strategy(tier):
-    fills = st.tuples(st.sampled_from(["random", "random", "ff", "text", "adversarial", "adversarial", "small-int", "small-int", "float-special", "negative-int"]),
+    fills = st.tuples(st.sampled_from(["random", "random", "ff", "text", "adversarial", "adversarial", "small-int", "small-int", "float-special", "negative-int", "wide", "wide",
+                                         "partial:small-int", "partial:small-int", "partial:random", "partial:ff", "partial:wide"]),
                       st.integers(0, 2 ** 32 - 1)).map(list)
     return st.sampled_from(specs.TYPES).flatmap(lambda t: st.fixed_dictionaries({
         "spec": specs.SPEC[t](tier, 0), "hints": specs.HINTS, "source": st.sampled_from(["lib", "ref"]), "fill": fills}))
@@ -121,7 +130,7 @@ def blocks_strategy(tier):
 
 # ---------------------------------------------------------------------------------------
 def capture_strategy(tier):
-    fills = st.tuples(st.sampled_from(["random", "ff", "text", "adversarial", "zero", "small-int", "float-special", "negative-int"]), st.integers(0, 2 ** 32 - 1)).map(list)
+    fills = st.tuples(st.sampled_from(["random", "ff", "text", "adversarial", "zero", "small-int", "float-special", "negative-int", "wide", "partial:small-int", "partial:random"]), st.integers(0, 2 ** 32 - 1)).map(list)
     return st.fixed_dictionaries({"slot": st.sampled_from([0, 1, 3, 4, 5, 6, 7, 0, 1, 7]), "fill": fills})
 
 
@@ -149,7 +158,8 @@ def container_strategy(tier):
                    "adate": draw(dates31)} for t in types]
         return {"N": n, "blocks": blocks, "dates": draw(st.lists(dates31, min_size=3, max_size=3)),
                 "source": draw(st.sampled_from(["generated", "generated", "capture-table"])),
-                "fill": [draw(st.sampled_from(["random", "ff", "text", "adversarial", "small-int", "float-special", "negative-int"])), draw(st.integers(0, 2 ** 32 - 1))]}
+                "fill": [draw(st.sampled_from(["random", "ff", "text", "adversarial", "small-int", "float-special", "negative-int", "wide", "partial:small-int", "partial:small-int",
+                                               "partial:random", "partial:ff"])), draw(st.integers(0, 2 ** 32 - 1))]}
 
     return cases()
 
@@ -230,9 +240,9 @@ SUBS = [
 
 
 def _adapter(spec, raw, tail):
-    kinds = ["random", "ff", "text", "adversarial", "small-int", "float-special", "negative-int"]
+    kinds = ["random", "ff", "text", "adversarial", "small-int", "float-special", "negative-int", "wide", "partial:small-int", "partial:random"]
     t = bytes(tail) + b"\x00" * 8
-    return {"spec": spec, "source": "ref", "fill": [kinds[t[0] % 7], int.from_bytes(t[1:5], "little")]}
+    return {"spec": spec, "source": "ref", "fill": [kinds[t[0] % 10], int.from_bytes(t[1:5], "little")]}
 
 
 SUBS += [Sub(f"fuzz:{t}", run_blocks, kind="fuzz", fuzz_target=("spec", t, _adapter), budget=(0, 40000), shards=(1, 2),
